@@ -27,6 +27,12 @@ MUTS = {
  'M8-short-list-is-ready': ('features.go', 'case list.total == 0:', 'case list.total <= 1:'),
  'M9-forced-starttls-ignores-negotiable': ('features.go', 'startTLS.Negotiate != nil && startTLS.allowed(s.state)', 'startTLS.allowed(s.state)'),
  'M10-informational-selectable': ('features.go', 'if _, ok := s.negotiated[v.feature.Name.Space]; ok || v.feature.Negotiate == nil {', 'if _, ok := s.negotiated[v.feature.Name.Space]; ok {'),
+ 'M11-skipped-required-ignored': ('features.go', 'if v.req && !ok && v.feature.Negotiate != nil && v.feature.allowed(s.state) {', 'if false && v.req && !ok {'),
+ 'M12-skipped-not-recorded': ('features.go', """				sf.skipped = append(sf.skipped, sfData{
+					req:     req,
+					feature: feature,
+				})
+""", ''),
  # ---- breaking, C04
  'N1-swallow-feature-error': ('features.go', '''		if err != nil {
 			// Negotiation ends with the first feature that fails, even if it was
